@@ -644,7 +644,15 @@ pub fn run_exchange(spec: &ExchangeSpec, start: Option<Flow<(), Prepare>>, strea
                     req_wire.extend_from_slice(&rest[..take]);
                     rest = &rest[take..];
                     if rest.is_empty() && !sb.can_proceed() {
-                        return Err(format!("all {} body bytes accounted for by a direct-write report of {} bytes, but the body is not reported finished", spec.body.len(), take));
+                        // a report is bookkeeping; if it does not end the body by itself, the documented end signal (an empty
+                        // write, which needs no output space) must
+                        match sb.write(&[], &mut []) {
+                            Ok((0, 0)) => {}
+                            other => return Err(format!("end signal after direct-write reports covering all {} body bytes returned {:?}", spec.body.len(), other)),
+                        }
+                        if !sb.can_proceed() {
+                            return Err(format!("all {} body bytes accounted for by direct-write reports and the end signalled, but the body is not reported finished", spec.body.len()));
+                        }
                     }
                     s.progress(true);
                     continue;
